@@ -550,7 +550,7 @@ pub fn preprocess_str<T: AsRef<Path>, U: AsRef<Path>, V: BuildHasher>(
                     }
                 }
             }
-            NodeEvent::Enter(RefNode::WhiteSpace(x)) if !skip_whitespace && !strip_comments => {
+            NodeEvent::Enter(RefNode::WhiteSpace(x)) if !skip_whitespace => {
                 if let WhiteSpace::Space(_) = x {
                     let locate: Locate = x.try_into().unwrap();
                     let range = Range::new(locate.offset, locate.offset + locate.len);
@@ -561,6 +561,18 @@ pub fn preprocess_str<T: AsRef<Path>, U: AsRef<Path>, V: BuildHasher>(
                 let locate: Locate = x.try_into().unwrap();
                 let range = Range::new(locate.offset, locate.offset + locate.len);
                 ret.push(locate.str(&s), Some((path.as_ref(), range)));
+            }
+            NodeEvent::Enter(RefNode::Comment(x)) => {
+                // A stripped comment still separates the tokens around it.
+                let locate: Locate = x.try_into().unwrap();
+                let end = locate.offset + locate.len;
+                if locate.str(&s).starts_with("/*") {
+                    let range = Range::new(locate.offset, locate.offset + 1);
+                    ret.push(" ", Some((path.as_ref(), range)));
+                } else if locate.str(&s).ends_with('\n') {
+                    let range = Range::new(end - 1, end);
+                    ret.push("\n", Some((path.as_ref(), range)));
+                }
             }
             NodeEvent::Enter(RefNode::IfndefDirective(x)) => {
                 let (_, ref keyword, ref ifid, ref ifbody, ref elsif, ref elsebody, _, _) = x.nodes;
